@@ -292,6 +292,56 @@ pub fn expect_system_info_request() -> Val {
     Val::Struct(vec![Val::None, Val::Int(1)])
 }
 
+/// value at a dotted field path of a decoded request (Options on the way are unwrapped);
+/// None if the request is undecodable, Some(Val::None) if the field is absent
+pub fn get_path(table: &Table, key: &str, v: &Option<Val>, path: &str) -> Option<Val> {
+    let mut ty = table.types.get(key)?;
+    let mut cur: Val = v.clone()?;
+    for part in path.split('.') {
+        let i = ty.fields.iter().position(|f| f.name == part)?;
+        let f = &ty.fields[i];
+        let mut next = cur.fields().get(i)?.clone();
+        if let Val::Some(b) = next {
+            next = *b;
+        }
+        if let Enc::Nested(n) = &f.enc {
+            ty = table.types.get(n)?;
+        }
+        cur = next;
+        if cur == Val::None {
+            return Some(Val::None);
+        }
+    }
+    Some(cur)
+}
+
+/// Compares only the fields the statements name. Returns the mismatches.
+pub fn named_fields_differ(table: &Table, key: &str, req: Option<&ReqRec>, want: &[(&str, Val)]) -> Vec<String> {
+    let Some(req) = req else { return vec![format!("no {key} request was sent")] };
+    if req.key != key {
+        return vec![format!("expected a {key} request, got {}", req.key)];
+    }
+    let mut out = vec![];
+    for (path, w) in want {
+        let got = get_path(table, key, &req.val, path);
+        if got.as_ref() != Some(w) {
+            out.push(format!("{key}.{path} is {} (expected {w:?})", got.map(|g| format!("{g:?}")).unwrap_or("(undecodable)".into())));
+        }
+    }
+    out
+}
+
+pub const TOKEN_PATH: &str = "tlv.bmp_data.bmp_data";
+
+pub fn want_reservation(cfg: &Config, token: &str) -> Vec<(&'static str, Val)> {
+    vec![("amount", Val::Int(cfg.feig_config.pre_authorization_amount as u64)), ("currency", Val::Int(cfg.feig_config.currency as u64)), (TOKEN_PATH, Val::Text(token.into()))]
+}
+
+pub fn want_partial_reversal(cfg: &Config, token: &str, receipt: u64, final_amount: u64) -> Vec<(&'static str, Val)> {
+    let pre = cfg.feig_config.pre_authorization_amount as u64;
+    vec![("receipt_no", Val::Int(receipt)), ("amount", Val::Int(pre.saturating_sub(final_amount))), ("currency", Val::Int(cfg.feig_config.currency as u64)), (TOKEN_PATH, Val::Text(token.into()))]
+}
+
 pub fn show_req(table: &Table, key: &str, v: &Option<Val>) -> String {
     match v {
         Some(v) if table.types.contains_key(key) => Codec::new(table).debug_string(table.get(key), v),
